@@ -400,6 +400,14 @@ theorem keyText_key (hw : WriteContract o f P T) {k : List Char} (hk : P.key k =
     keyText o f (.str k) = some (T.key k) := by
   simp [keyText, hw.key k hk]
 
+theorem fits_not_long {t : List Char} (h : fitsImplicit t = true) : ¬ (t.length > maxImplicitKeyChars) := by
+  simp only [fitsImplicit, decide_eq_true_eq] at h
+  simp only [maxImplicitKeyChars]; omega
+
+theorem long_of_not_fits {t : List Char} (h : fitsImplicit t = false) : t.length > maxImplicitKeyChars := by
+  simp only [fitsImplicit, decide_eq_false_iff_not] at h
+  simp only [maxImplicitKeyChars]; omega
+
 /-- the state right after `key:` has been written, `current_map_depth` set for the value -/
 def afterKey (s : St) (md : Nat) (text : List Char) (doc : Bool) : St :=
   { s with out := s.out ++ text, atLineStart := false, pendingSpaceAfterColon := true, afterDashDepth := none,
@@ -408,7 +416,7 @@ def afterKey (s : St) (md : Nat) (text : List Char) (doc : Bool) : St :=
 /-- one entry with a safe string key at a line start: `mapKeyPrefix`, the key text, `:`, then the
 value in `ValCtx`, then the restoration of `current_map_depth` / `pending_inline_map` -/
 theorem serMapEntries_cons_line (ho : FragOpts o) (hw : WriteContract o f P T) {m : MapSer} {s : St} {k : List Char} {c : Nat}
-    (v : SVal) (es : List (SVal × SVal)) (hk : P.key k = true) (hm : m.flow = false)
+    (v : SVal) (es : List (SVal × SVal)) (hk : P.key k = true) (hfit : fitsImplicit (T.key k) = true) (hm : m.flow = false)
     (hivs : m.inlineValueStart = false) (h : LineCtx o s) (hcol : Col o s m.depth c) :
     ∃ s4, ValCtx o s4 m.depth c ∧ s4.out = s.out ++ spaces c ++ T.key k ++ [':'] ∧
       s4.lastValueWasBlock = s.lastValueWasBlock ∧ s4.indentShift = s.indentShift ∧ s4.currentMapDepth.isSome = true ∧
@@ -430,7 +438,7 @@ theorem serMapEntries_cons_line (ho : FragOpts o) (hw : WriteContract o f P T) {
   · simp [afterKey]
   · simp [afterKey]
   · rw [serMapEntries]
-    simp only [hm, Bool.false_eq_true, if_false, keyText_key hw hk]
+    simp only [hm, Bool.false_eq_true, if_false, keyText_key hw hk, fits_not_long hfit]
     by_cases hd : s.docStarted = true
     · simp [mapKeyPrefix, mapIndent, writeIndent, hic, St.write, afterKey, hivs, List.append_assoc, *]
       rfl
@@ -439,7 +447,7 @@ theorem serMapEntries_cons_line (ho : FragOpts o) (hw : WriteContract o f P T) {
 
 /-- the first entry of a mapping that starts right after `- `: the key stays on the dash line -/
 theorem serMapEntries_cons_inline (hw : WriteContract o f P T) {m : MapSer} {s : St} {k : List Char} {c : Nat}
-    (v : SVal) (es : List (SVal × SVal)) (hk : P.key k = true) (hm : m.flow = false)
+    (v : SVal) (es : List (SVal × SVal)) (hk : P.key k = true) (hfit : fitsImplicit (T.key k) = true) (hm : m.flow = false)
     (hivs : m.inlineValueStart = false) (hb : Base o s) (hals : s.atLineStart = false)
     (hpsc : s.pendingSpaceAfterColon = false) (hcol : Col o s m.depth c) :
     ∃ s4, ValCtx o s4 m.depth c ∧ s4.out = s.out ++ T.key k ++ [':'] ∧ s4.lastValueWasBlock = false ∧
@@ -460,7 +468,7 @@ theorem serMapEntries_cons_inline (hw : WriteContract o f P T) {m : MapSer} {s :
   · simp [afterKey]
   · simp [afterKey]
   · rw [serMapEntries]
-    simp only [hm, Bool.false_eq_true, if_false, keyText_key hw hk]
+    simp only [hm, Bool.false_eq_true, if_false, keyText_key hw hk, fits_not_long hfit]
     simp [mapKeyPrefix, mapIndent, writeIndent, writeSpaceIfPending, St.write, afterKey, hivs, List.append_assoc, *]
     rfl
 
@@ -678,17 +686,95 @@ theorem complexValue_ctx (ho : FragOpts o) {m : MapSer} {s0 sk : St} {c : Nat}
   have := hb.doc; have := doc_imp hb.doc
   have hic := indentCols_col hcol
   have hsh : (complexValueCtx o m s0 sk).indentShift = sk.indentShift := by
-    by_cases hd : sk.docStarted = true <;> simp [complexValueCtx, mapIndent, writeIndent, St.write, *]
+    by_cases hd : sk.docStarted = true <;> simp [complexValueCtx, explicitValueCtx, mapIndent, writeIndent, St.write, *]
   refine ⟨?_, ?_, ?_, hsh⟩
   · constructor
     · constructor <;> (by_cases hd : sk.docStarted = true <;>
-        simp [complexValueCtx, mapIndent, writeIndent, St.write, *, hb.inFlow, hb.pendingFlow, hb.pss, hb.pic])
+        simp [complexValueCtx, explicitValueCtx, mapIndent, writeIndent, St.write, *, hb.inFlow, hb.pendingFlow, hb.pss, hb.pic])
     all_goals first
       | exact hcol.of_shift hsh
-      | (by_cases hd : sk.docStarted = true <;> simp [complexValueCtx, mapIndent, writeIndent, St.write, *])
+      | (by_cases hd : sk.docStarted = true <;> simp [complexValueCtx, explicitValueCtx, mapIndent, writeIndent, St.write, *])
   all_goals (by_cases hd : sk.docStarted = true <;>
-    simp [complexValueCtx, mapIndent, writeIndent, hic, St.write, List.append_assoc, *])
+    simp [complexValueCtx, explicitValueCtx, mapIndent, writeIndent, hic, St.write, List.append_assoc, *])
 
+
+/-- `MapSer::serialize_value` with `last_key_complex` after a finished key line: `: ` at column `c`, the value in
+item context -/
+theorem explicitValue_ctx (ho : FragOpts o) {m : MapSer} {sk : St} {c : Nat}
+    (hb : Base o sk) (hals : sk.atLineStart = true) (hcol : Col o sk m.depth c) :
+    ItemCtx o (explicitValueCtx o m sk) m.depth c ∧
+    (explicitValueCtx o m sk).out = sk.out ++ spaces c ++ [':', ' '] ∧
+    (explicitValueCtx o m sk).lastValueWasBlock = sk.lastValueWasBlock ∧
+    (explicitValueCtx o m sk).indentShift = sk.indentShift := by
+  have := hb.doc; have := doc_imp hb.doc
+  have hic := indentCols_col hcol
+  have hsh : (explicitValueCtx o m sk).indentShift = sk.indentShift := by
+    by_cases hd : sk.docStarted = true <;> simp [explicitValueCtx, mapIndent, writeIndent, St.write, *]
+  refine ⟨?_, ?_, ?_, hsh⟩
+  · constructor
+    · constructor <;> (by_cases hd : sk.docStarted = true <;>
+        simp [explicitValueCtx, mapIndent, writeIndent, St.write, *, hb.inFlow, hb.pendingFlow, hb.pss, hb.pic])
+    all_goals first
+      | exact hcol.of_shift hsh
+      | (by_cases hd : sk.docStarted = true <;> simp [explicitValueCtx, mapIndent, writeIndent, St.write, *])
+  all_goals (by_cases hd : sk.docStarted = true <;>
+    simp [explicitValueCtx, mapIndent, writeIndent, hic, St.write, List.append_assoc, *])
+
+/-! ### scalar keys too long for an implicit key: `? key` / `: value` -/
+
+/-- one entry of a block mapping whose string key is written as an explicit key -/
+theorem serMapEntries_long (hw : WriteContract o f P T) (m : MapSer) {k : List Char} (v : SVal) (es : List (SVal × SVal)) (s : St)
+    (hm : m.flow = false) (hk : P.key k = true) (hfit : fitsImplicit (T.key k) = false) :
+    serMapEntries o f m ((.str k, v) :: es) s =
+      (match ser o f v (explicitValueCtx o (mapKeyPrefix m s).1 (longKeyLine o (mapKeyPrefix m s).1 (T.key k) (mapKeyPrefix m s).2)) with
+       | .error e => .error e
+       | .ok sv => serMapEntries o f { (mapKeyPrefix m s).1 with first := false, lastKeyComplex := false } es
+           (complexEntryDone (longKeyLine o (mapKeyPrefix m s).1 (T.key k) (mapKeyPrefix m s).2) sv)) := by
+  rw [serMapEntries]
+  simp only [hm, Bool.false_eq_true, if_false, keyText_key hw hk, long_of_not_fits hfit, if_true]
+  generalize mapKeyPrefix m s = p
+  obtain ⟨m', s'⟩ := p
+  rfl
+
+/-- the line `? key` of a long key that starts a line, at column `c` -/
+theorem longKey_line (ho : FragOpts o) {m : MapSer} {s : St} {c : Nat} (K : List Char) (hivs : m.inlineValueStart = false)
+    (h : LineCtx o s) (hcol : Col o s m.depth c) :
+    (mapKeyPrefix m s).1 = m ∧
+    Base o (longKeyLine o m K (mapKeyPrefix m s).2) ∧
+    (longKeyLine o m K (mapKeyPrefix m s).2).atLineStart = true ∧
+    (longKeyLine o m K (mapKeyPrefix m s).2).out = s.out ++ spaces c ++ ['?', ' '] ++ K ++ ['\n'] ∧
+    (longKeyLine o m K (mapKeyPrefix m s).2).lastValueWasBlock = false ∧
+    (longKeyLine o m K (mapKeyPrefix m s).2).indentShift = s.indentShift ∧
+    (longKeyLine o m K (mapKeyPrefix m s).2).depth = s.depth ∧
+    (longKeyLine o m K (mapKeyPrefix m s).2).currentMapDepth = s.currentMapDepth ∧
+    (longKeyLine o m K (mapKeyPrefix m s).2).pendingInlineMap = false := by
+  have := h.als; have := h.psc; have := h.doc; have := doc_imp h.doc
+  have hic := indentCols_col hcol
+  refine ⟨?_, ?_, ?_, ?_, ?_, ?_, ?_, ?_, ?_⟩
+  · simp [mapKeyPrefix, hivs, *]
+  · constructor <;> (by_cases hd : s.docStarted = true <;>
+      simp [longKeyLine, mapIndent, newline, mapKeyPrefix, writeIndent, St.write, hivs, *, h.inFlow, h.pendingFlow, h.pss, h.pic])
+  all_goals (by_cases hd : s.docStarted = true <;>
+    simp [longKeyLine, mapIndent, newline, mapKeyPrefix, writeIndent, hic, St.write, hivs, List.append_assoc, *])
+
+/-- the line `? key` of a long FIRST key of a mapping that starts right after `- `: on the dash line -/
+theorem longKey_inline {m : MapSer} {s : St} (K : List Char) (hivs : m.inlineValueStart = false)
+    (hb : Base o s) (hals : s.atLineStart = false) (hpsc : s.pendingSpaceAfterColon = false) :
+    (mapKeyPrefix m s).1 = m ∧
+    Base o (longKeyLine o m K (mapKeyPrefix m s).2) ∧
+    (longKeyLine o m K (mapKeyPrefix m s).2).atLineStart = true ∧
+    (longKeyLine o m K (mapKeyPrefix m s).2).out = s.out ++ ['?', ' '] ++ K ++ ['\n'] ∧
+    (longKeyLine o m K (mapKeyPrefix m s).2).lastValueWasBlock = false ∧
+    (longKeyLine o m K (mapKeyPrefix m s).2).indentShift = s.indentShift ∧
+    (longKeyLine o m K (mapKeyPrefix m s).2).depth = s.depth ∧
+    (longKeyLine o m K (mapKeyPrefix m s).2).currentMapDepth = s.currentMapDepth ∧
+    (longKeyLine o m K (mapKeyPrefix m s).2).pendingInlineMap = false := by
+  refine ⟨?_, ?_, ?_, ?_, ?_, ?_, ?_, ?_, ?_⟩
+  · simp [mapKeyPrefix, hivs, *]
+  · constructor <;>
+      simp [longKeyLine, mapIndent, newline, mapKeyPrefix, writeIndent, writeSpaceIfPending, St.write, hivs, *, hb.inFlow, hb.pendingFlow, hb.pss, hb.pic, hb.doc]
+  all_goals
+    simp [longKeyLine, mapIndent, newline, mapKeyPrefix, writeIndent, writeSpaceIfPending, St.write, hivs, List.append_assoc, *]
 
 /-! ### enum variants with data: `begin_variant` / `end_variant` -/
 
@@ -761,7 +847,7 @@ theorem ser_structVariant (n : List Char) (fs : List (SVal × SVal)) (s : St) :
 
 /-- `begin_variant` right after `key:`: the label goes to the next line one level deeper -/
 theorem beginVariant_val (ho : FragOpts o) (hw : WriteContract o f P T) {s : St} {m c : Nat} (h : ValCtx o s m c) {n : List Char}
-    (hn : P.name n = true) :
+    (hn : P.name n = true) (hfit : fitsImplicit (T.name n) = true) :
     ∃ s3, beginVariant o f n s = ({ prevMapDepth := some s.currentMapDepth }, s3) ∧
       ValCtx o s3 (m + 1) (c + o.indentStep) ∧
       s3.out = s.out ++ ['\n'] ++ spaces (c + o.indentStep) ++ T.name n ++ [':'] ∧
@@ -775,7 +861,7 @@ theorem beginVariant_val (ho : FragOpts o) (hw : WriteContract o f P T) {s : St}
     · simp [hc, hm, hd0]
   refine ⟨{ afterKey s (m + 1) (['\n'] ++ spaces (c + o.indentStep) ++ T.name n ++ [':']) true with afterDashDepth := s.afterDashDepth }, ?_, ?_, ?_, ?_, ?_, ?_⟩
   · by_cases hd : s.docStarted = true <;>
-      simp [beginVariant, newline, writeIndent, hic, St.write, afterKey, plainOrQuoted_name hw hn, List.append_assoc, *]
+      simp [beginVariant, newline, writeIndent, hic, St.write, afterKey, plainOrQuoted_name hw hn, fits_not_long hfit, List.append_assoc, *]
   · constructor
     · constructor <;> simp [afterKey, h.inFlow, h.pendingFlow, h.pss, h.pic]
     all_goals first
@@ -789,13 +875,13 @@ theorem beginVariant_val (ho : FragOpts o) (hw : WriteContract o f P T) {s : St}
 /-- `begin_variant` right after `- `: the label stays on the dash line, the payload is laid out
 under it (two columns after the dash) -/
 theorem beginVariant_item (ho : FragOpts o) (hw : WriteContract o f P T) {s : St} {d c : Nat} (h : ItemCtx o s d c) {n : List Char}
-    (hn : P.name n = true) :
+    (hn : P.name n = true) (hfit : fitsImplicit (T.name n) = true) :
     ∃ s3, beginVariant o f n s = ({ prevMapDepth := some s.currentMapDepth, restoreShift := some s.indentShift }, s3) ∧
       ValCtx o s3 (d + 1) (c + 2) ∧ s3.out = s.out ++ T.name n ++ [':'] ∧ s3.lastValueWasBlock = s.lastValueWasBlock ∧
       s3.currentMapDepth.isSome = true := by
   have := h.als; have := h.psc; have := h.add; have := h.inFlow; have := h.doc
   refine ⟨shiftForInlineNode o (afterKey s (d + 1) (T.name n ++ [':']) s.docStarted), ?_, ?_, ?_, ?_, ?_⟩
-  · simp [beginVariant, indentIfLineStart, St.write, afterKey, plainOrQuoted_name hw hn, List.append_assoc,
+  · simp [beginVariant, indentIfLineStart, St.write, afterKey, plainOrQuoted_name hw hn, fits_not_long hfit, List.append_assoc,
       shiftForInlineNode, *]
   · constructor
     · constructor <;> simp [shiftForInlineNode, afterKey, h.inFlow, h.pendingFlow, h.pss, h.pic, h.doc]
@@ -808,7 +894,8 @@ theorem beginVariant_item (ho : FragOpts o) (hw : WriteContract o f P T) {s : St
 
 
 /-- `begin_variant` at the root: the label at column 0, the payload in `ValCtx _ 0 0` -/
-theorem beginVariant_root (ho : FragOpts o) (hw : WriteContract o f P T) {n : List Char} (hn : P.name n = true) :
+theorem beginVariant_root (ho : FragOpts o) (hw : WriteContract o f P T) {n : List Char} (hn : P.name n = true)
+    (hfit : fitsImplicit (T.name n) = true) :
     ∃ s3, beginVariant o f n (startSt o) = ({}, s3) ∧ ValCtx o s3 0 0 ∧ s3.out = prologue o ++ T.name n ++ [':'] ∧
       s3.lastValueWasBlock = false ∧ s3.currentMapDepth = none := by
   have hc0 : Col o (startSt o) 0 0 := by simp [Col, startSt]
@@ -816,7 +903,7 @@ theorem beginVariant_root (ho : FragOpts o) (hw : WriteContract o f P T) {n : Li
   refine ⟨{ afterKey (startSt o) 0 (T.name n ++ [':']) true with currentMapDepth := none }, ?_, ?_, ?_, ?_, ?_⟩
   · have hic' := hic (startSt o) rfl
     simp only [startSt] at hic'
-    simp [beginVariant, indentIfLineStart, writeIndent, hic', St.write, afterKey, plainOrQuoted_name hw hn, spaces, startSt]
+    simp [beginVariant, indentIfLineStart, writeIndent, hic', St.write, afterKey, plainOrQuoted_name hw hn, fits_not_long hfit, spaces, startSt]
   · constructor
     · constructor <;> simp [afterKey, startSt]
     all_goals first
@@ -825,6 +912,113 @@ theorem beginVariant_root (ho : FragOpts o) (hw : WriteContract o f P T) {n : Li
   · simp [afterKey, startSt, List.append_assoc]
   · simp [afterKey, startSt]
   · simp [afterKey]
+
+/-- `begin_variant` right after `key:` for a name too long for an implicit key: `? Variant` on the next line one level
+deeper, `: ` under it, the payload in item context -/
+theorem beginVariant_val_long (ho : FragOpts o) (hw : WriteContract o f P T) {s : St} {m c : Nat} (h : ValCtx o s m c) {n : List Char}
+    (hn : P.name n = true) (hfit : fitsImplicit (T.name n) = false) :
+    (beginVariant o f n s).1.flow = false ∧ (beginVariant o f n s).1.prevMapDepth = some s.currentMapDepth ∧
+    (beginVariant o f n s).1.restoreShift = none ∧
+    ItemCtx o (beginVariant o f n s).2 (m + 1) (c + o.indentStep) ∧
+    (beginVariant o f n s).2.out = s.out ++ ['\n'] ++ spaces (c + o.indentStep) ++ ['?', ' '] ++ T.name n ++ ['\n'] ++
+      spaces (c + o.indentStep) ++ [':', ' '] ∧
+    (beginVariant o f n s).2.lastValueWasBlock = s.lastValueWasBlock ∧
+    (beginVariant o f n s).2.indentShift = s.indentShift := by
+  have := h.als; have := h.psc; have := h.doc; have := doc_imp h.doc
+  have := h.inFlow
+  have hic := indentCols_col (h.col.succ ho.indent)
+  have hbase : s.currentMapDepth.getD s.depth = m := by
+    rcases h.cmd with hc | ⟨hc, hm, hd0⟩
+    · simp [hc]
+    · simp [hc, hm, hd0]
+  have hlong := long_of_not_fits hfit
+  have hsh : (beginVariant o f n s).2.indentShift = s.indentShift := by
+    by_cases hd : s.docStarted = true <;>
+      simp [beginVariant, beginVariantExplicit, newline, writeIndent, St.write, plainOrQuoted_name hw hn, hlong, *]
+  refine ⟨?_, ?_, ?_, ?_, ?_, ?_, hsh⟩
+  · by_cases hd : s.docStarted = true <;>
+      simp [beginVariant, beginVariantExplicit, newline, writeIndent, St.write, plainOrQuoted_name hw hn, hlong, *]
+  · by_cases hd : s.docStarted = true <;>
+      simp [beginVariant, beginVariantExplicit, newline, writeIndent, St.write, plainOrQuoted_name hw hn, hlong, *]
+  · by_cases hd : s.docStarted = true <;>
+      simp [beginVariant, beginVariantExplicit, newline, writeIndent, St.write, plainOrQuoted_name hw hn, hlong, *]
+  · constructor
+    · constructor <;> (by_cases hd : s.docStarted = true <;>
+        simp [beginVariant, beginVariantExplicit, newline, writeIndent, St.write, plainOrQuoted_name hw hn, hlong, *,
+          h.pendingFlow, h.pss, h.pic])
+    all_goals first
+      | exact (h.col.succ ho.indent).of_shift hsh
+      | (by_cases hd : s.docStarted = true <;>
+          simp [beginVariant, beginVariantExplicit, newline, writeIndent, St.write, plainOrQuoted_name hw hn, hlong, *])
+  · by_cases hd : s.docStarted = true <;>
+      simp [beginVariant, beginVariantExplicit, newline, writeIndent, hic, St.write, plainOrQuoted_name hw hn, hlong, List.append_assoc, *]
+  · by_cases hd : s.docStarted = true <;>
+      simp [beginVariant, beginVariantExplicit, newline, writeIndent, St.write, plainOrQuoted_name hw hn, hlong, *]
+
+/-- `begin_variant` right after `- ` for a name too long for an implicit key: `? Variant` on the dash line, `: `
+under the `?` (two columns after the dash), the payload in item context -/
+theorem beginVariant_item_long (ho : FragOpts o) (hw : WriteContract o f P T) {s : St} {d c : Nat} (h : ItemCtx o s d c) {n : List Char}
+    (hn : P.name n = true) (hfit : fitsImplicit (T.name n) = false) :
+    (beginVariant o f n s).1.flow = false ∧ (beginVariant o f n s).1.prevMapDepth = some s.currentMapDepth ∧
+    (beginVariant o f n s).1.restoreShift = some s.indentShift ∧
+    ItemCtx o (beginVariant o f n s).2 (d + 1) (c + 2) ∧
+    (beginVariant o f n s).2.out = s.out ++ ['?', ' '] ++ T.name n ++ ['\n'] ++ spaces (c + 2) ++ [':', ' '] ∧
+    (beginVariant o f n s).2.lastValueWasBlock = s.lastValueWasBlock := by
+  have := h.als; have := h.psc; have := h.add; have := h.inFlow; have := h.doc; have := doc_imp h.doc
+  have hcol2 : Col o (shiftForInlineNode o s) (d + 1) (c + 2) := Col.inline h.col
+  have hic := indentCols_col hcol2
+  have hlong := long_of_not_fits hfit
+  have hsh : (beginVariant o f n s).2.indentShift = (shiftForInlineNode o s).indentShift := by
+    by_cases hd : s.docStarted = true <;>
+      simp [beginVariant, beginVariantExplicit, newline, writeIndent, St.write, plainOrQuoted_name hw hn, hlong, shiftForInlineNode, *]
+  refine ⟨?_, ?_, ?_, ?_, ?_, ?_⟩
+  · by_cases hd : s.docStarted = true <;>
+      simp [beginVariant, beginVariantExplicit, newline, writeIndent, St.write, plainOrQuoted_name hw hn, hlong, shiftForInlineNode, *]
+  · by_cases hd : s.docStarted = true <;>
+      simp [beginVariant, beginVariantExplicit, newline, writeIndent, St.write, plainOrQuoted_name hw hn, hlong, shiftForInlineNode, *]
+  · by_cases hd : s.docStarted = true <;>
+      simp [beginVariant, beginVariantExplicit, newline, writeIndent, St.write, plainOrQuoted_name hw hn, hlong, shiftForInlineNode, *]
+  · constructor
+    · constructor <;> (by_cases hd : s.docStarted = true <;>
+        simp [beginVariant, beginVariantExplicit, newline, writeIndent, St.write, plainOrQuoted_name hw hn, hlong, shiftForInlineNode, *,
+          h.pendingFlow, h.pss, h.pic])
+    all_goals first
+      | exact hcol2.of_shift hsh
+      | (by_cases hd : s.docStarted = true <;>
+          simp [beginVariant, beginVariantExplicit, newline, writeIndent, St.write, plainOrQuoted_name hw hn, hlong, shiftForInlineNode, *])
+  · have hic' := hic (shiftForInlineNode o s) rfl
+    simp only [shiftForInlineNode] at hic'
+    by_cases hd : s.docStarted = true <;>
+      simp [beginVariant, beginVariantExplicit, newline, writeIndent, hic', St.write, plainOrQuoted_name hw hn, hlong, shiftForInlineNode,
+        List.append_assoc, *]
+  · by_cases hd : s.docStarted = true <;>
+      simp [beginVariant, beginVariantExplicit, newline, writeIndent, St.write, plainOrQuoted_name hw hn, hlong, shiftForInlineNode, *]
+
+/-- `begin_variant` at the root for a name too long for an implicit key: `? Variant` at column 0, `: ` under it -/
+theorem beginVariant_root_long (ho : FragOpts o) (hw : WriteContract o f P T) {n : List Char} (hn : P.name n = true)
+    (hfit : fitsImplicit (T.name n) = false) :
+    (beginVariant o f n (startSt o)).1.flow = false ∧ (beginVariant o f n (startSt o)).1.restoreShift = none ∧
+    ItemCtx o (beginVariant o f n (startSt o)).2 0 0 ∧
+    (beginVariant o f n (startSt o)).2.out = prologue o ++ ['?', ' '] ++ T.name n ++ ['\n'] ++ [':', ' '] ∧
+    (beginVariant o f n (startSt o)).2.lastValueWasBlock = false := by
+  have hc0 : Col o (startSt o) 0 0 := by simp [Col, startSt]
+  have hic := indentCols_col hc0
+  have hlong := long_of_not_fits hfit
+  have hic' := hic (startSt o) rfl
+  simp only [startSt] at hic'
+  have hic2 : ∀ out, indentCols o { out := out, atLineStart := true, docStarted := true } 0 = 0 := by
+    intro out; simp [indentCols]
+  refine ⟨?_, ?_, ?_, ?_, ?_⟩
+  · simp [beginVariant, beginVariantExplicit, newline, writeIndent, St.write, plainOrQuoted_name hw hn, hlong, startSt]
+  · simp [beginVariant, beginVariantExplicit, newline, writeIndent, St.write, plainOrQuoted_name hw hn, hlong, startSt]
+  · constructor
+    · constructor <;> simp [beginVariant, beginVariantExplicit, newline, writeIndent, St.write, plainOrQuoted_name hw hn, hlong, startSt]
+    all_goals first
+      | (simp [beginVariant, beginVariantExplicit, newline, writeIndent, St.write, plainOrQuoted_name hw hn, hlong, startSt, Col]; done)
+      | simp [beginVariant, beginVariantExplicit, newline, writeIndent, St.write, plainOrQuoted_name hw hn, hlong, startSt]
+  · simp [beginVariant, beginVariantExplicit, newline, writeIndent, hic', hic2, St.write, plainOrQuoted_name hw hn, hlong, startSt, spaces,
+      List.append_assoc, indentCols]
+  · simp [beginVariant, beginVariantExplicit, newline, writeIndent, St.write, plainOrQuoted_name hw hn, hlong, startSt]
 
 /-! ### the invariant: statements -/
 
@@ -1022,9 +1216,10 @@ theorem entries_nil : EntriesOK o f T [] := by
   · exact { toBase := h.toBase, als := h.als, psc := h.psc, cmd := rfl, shift := rfl }
 
 theorem entries_cons {k : List Char} {v : SVal} {es : List (SVal × SVal)} (hk : P.key k = true)
+    (hfit : fitsImplicit (T.key k) = true)
     (hv : ValOK o f T v) (hes : EntriesOK o f T es) : EntriesOK o f T ((.str k, v) :: es) := by
   intro s m c hm hivs h hcol
-  obtain ⟨s4, hc4, hout4, hl4, hsh4, him4, heq⟩ := serMapEntries_cons_line (o := o) ho hw v es hk hm hivs h hcol
+  obtain ⟨s4, hc4, hout4, hl4, hsh4, him4, heq⟩ := serMapEntries_cons_line (o := o) ho hw v es hk hfit hm hivs h hcol
   rw [heq]
   obtain ⟨sv, hev, houtv, hlv, hpv⟩ := hv s4 m.depth c hc4
   rw [him4] at houtv hlv
@@ -1036,8 +1231,8 @@ theorem entries_cons {k : List Char} {v : SVal} {es : List (SVal × SVal)} (hk :
       (hcol.of_shift (by simp [hpv.shift, hsh4]))
   refine ⟨m', s', he, hmf, by simpa using hmr, by simpa using hmfirst, ?_, ?_, ?_⟩
   · rw [hg.1]
-    simp [houtv, hout4, hlv, hl4, layEntries, keyOf, renderLines_append, List.append_assoc]
-  · rw [hg.2.1]; simp [hlv, hl4, layEntries, keyOf]
+    simp [houtv, hout4, hlv, hl4, layEntries, keyOf, hfit, renderLines_append, List.append_assoc]
+  · rw [hg.2.1]; simp [hlv, hl4, layEntries, keyOf, hfit]
   · exact { toBase := hg.2.2.toBase, als := hg.2.2.als, psc := hg.2.2.psc, cmd := by rw [hg.2.2.cmd],
             shift := by rw [hg.2.2.shift]; simp [hpv.shift, hsh4] }
 
@@ -1078,6 +1273,28 @@ theorem entries_cons_complex {k v : SVal} {es : List (SVal × SVal)} (hkc : isCo
   · rw [hg.2.1, hl3, hlv, hl2]; simp [layEntries, keyOf_complex k hkc]
   · exact { toBase := hg.2.2.toBase, als := hg.2.2.als, psc := hg.2.2.psc, cmd := by rw [hg.2.2.cmd, hcmd3],
             shift := by rw [hg.2.2.shift, hsh3, hpv.shift, hsh2, hpk.shift, hsh1] }
+
+/-- an entry whose string key is too long for an implicit key, at a line start: `? key` / `: value` -/
+theorem entries_cons_long {k : List Char} {v : SVal} {es : List (SVal × SVal)} (hk : P.key k = true)
+    (hfit : fitsImplicit (T.key k) = false)
+    (hv : ItemOK o f T v) (hes : EntriesOK o f T es) : EntriesOK o f T ((.str k, v) :: es) := by
+  intro s m c hm hivs h hcol
+  obtain ⟨hm1, hb0, hals0, hout0, hl0, hsh0, hd0, hcmd0, hpim0⟩ := longKey_line (o := o) ho (T.key k) hivs h hcol
+  rw [serMapEntries_long hw m v es s hm hk hfit, hm1]
+  obtain ⟨hc2, hout2, hl2, hsh2⟩ := explicitValue_ctx (o := o) ho (m := m) hb0 hals0 (hcol.of_shift hsh0)
+  obtain ⟨sv, hev, houtv, hlv, hpv⟩ := hv _ m.depth c hc2
+  rw [hev]
+  dsimp only
+  obtain ⟨hc3, hout3, hl3, hcmd3, hsh3⟩ := complexEntryDone_line (s := s) hpv hd0 hcmd0 hpim0
+  obtain ⟨m', s', he, hmf, hmr, hmfirst, hg⟩ :=
+    hes _ { m with first := false, lastKeyComplex := false } c hm hivs hc3
+      (hcol.of_shift (by rw [hsh3, hpv.shift, hsh2, hsh0]))
+  refine ⟨m', s', he, hmf, by simpa using hmr, by simpa using hmfirst, ?_, ?_, ?_⟩
+  · rw [hg.1, hout3, houtv, hout2, hout0, hl3, hlv, hl2, hl0]
+    simp [layEntries, keyOf, hfit, renderLines_append, List.append_assoc]
+  · rw [hg.2.1, hl3, hlv, hl2, hl0]; simp [layEntries, keyOf, hfit]
+  · exact { toBase := hg.2.2.toBase, als := hg.2.2.als, psc := hg.2.2.psc, cmd := by rw [hg.2.2.cmd, hcmd3],
+            shift := by rw [hg.2.2.shift, hsh3, hpv.shift, hsh2, hsh0] }
 
 /-- empty mapping right after `key:` -/
 theorem map_empty_val {s : St} {m c : Nat} (h : ValCtx o s m c) (len : Option Nat)
@@ -1139,7 +1356,7 @@ theorem map_val_step (known : Bool) {es : List (SVal × SVal)} (hes : EntriesOK 
 
 /-- a mapping right after `- ` -/
 theorem map_item_step (known : Bool) {es : List (SVal × SVal)}
-    (he1 : ∀ e ∈ es.head?, (∃ k, e.1 = .str k ∧ P.key k = true) ∧ ValOK o f T e.2) (hes : EntriesOK o f T es.tail)
+    (he1 : ∀ e ∈ es.head?, (∃ k, e.1 = .str k ∧ P.key k = true ∧ fitsImplicit (T.key k) = true) ∧ ValOK o f T e.2) (hes : EntriesOK o f T es.tail)
     (s : St) (d c : Nat) (h : ItemCtx o s d c) :
     Good o s (layMapItem T o.indentStep o.compactListIndent c s.lastValueWasBlock es) (ser o f (.map known es) s) := by
   rw [ser_map]
@@ -1150,13 +1367,13 @@ theorem map_item_step (known : Bool) {es : List (SVal × SVal)}
     simpa [layMapItem] using map_empty_item (o := o) (f := f) ho hw h len
   | cons e es' =>
     obtain ⟨hm1, hb1, hals1, hpsc1, hout1, hl1, hcmd1, hcol1⟩ := serializeMap_item (o := o) len h
-    obtain ⟨⟨kt, hke, hk⟩, hvv⟩ := he1 e (by simp)
+    obtain ⟨⟨kt, hke, hk, hfit⟩, hvv⟩ := he1 e (by simp)
     obtain ⟨k, v⟩ := e
     simp only at hke hvv
     subst hke
     rw [hm1]
     obtain ⟨s4, hc4, hout4, hl4, hsh4, him4, heq⟩ := serMapEntries_cons_inline (o := o) hw
-      (m := { depth := d + 1, flow := false, first := true, restoreShift := some s.indentShift }) v es' hk rfl rfl hb1 hals1 hpsc1 hcol1
+      (m := { depth := d + 1, flow := false, first := true, restoreShift := some s.indentShift }) v es' hk hfit rfl rfl hb1 hals1 hpsc1 hcol1
     rw [heq]
     obtain ⟨sv, hev, houtv, hlv, hpv⟩ := hvv s4 (d + 1) (c + 2) hc4
     rw [him4] at houtv hlv
@@ -1176,8 +1393,8 @@ theorem map_item_step (known : Bool) {es : List (SVal × SVal)}
       (by rw [hg.2.2.cmd]; exact hcmd1) (Or.inr (by simpa using hmr))
     refine ⟨_, rfl, ?_, ?_, hp⟩
     · rw [hout, hg.1]
-      simp [houtv, hout4, hout1, hlv, hl4, layMapItem, keyOf, renderLines_append, List.append_assoc]
-    · rw [hlvb]; simp [layMapItem, keyOf]
+      simp [houtv, hout4, hout1, hlv, hl4, layMapItem, keyOf, hfit, renderLines_append, List.append_assoc]
+    · rw [hlvb]; simp [layMapItem, keyOf, hfit]
 
 /-- a mapping right after `- ` whose first key is composite: `- ? key` -/
 theorem map_item_step_complex (known : Bool) {k v : SVal} {es : List (SVal × SVal)} (hkc : isComplexKey k = true)
@@ -1215,48 +1432,159 @@ theorem map_item_step_complex (known : Bool) {k v : SVal} {es : List (SVal × SV
     simp [layMapItem, keyOf_complex k hkc, renderLines_append, List.append_assoc]
   · rw [hlvb]; simp [layMapItem, keyOf_complex k hkc]
 
+/-- a mapping right after `- ` whose first key is a string too long for an implicit key: `- ? key` -/
+theorem map_item_step_long (known : Bool) {k : List Char} {v : SVal} {es : List (SVal × SVal)} (hk : P.key k = true)
+    (hfit : fitsImplicit (T.key k) = false) (hv : ItemOK o f T v) (hes : EntriesOK o f T es)
+    (s : St) (d c : Nat) (h : ItemCtx o s d c) :
+    Good o s (layMapItem T o.indentStep o.compactListIndent c s.lastValueWasBlock ((.str k, v) :: es)) (ser o f (.map known ((.str k, v) :: es)) s) := by
+  rw [ser_map]
+  generalize (if known = true then some ((SVal.str k, v) :: es).length else none) = len
+  obtain ⟨hm1, hb1, hals1, hpsc1, hout1, hl1, hcmd1, hcol1⟩ := serializeMap_item (o := o) len h
+  rw [hm1]
+  obtain ⟨hmk, hb0, hals0, hout0, hl0, hsh0, hd0, hcmd0, hpim0⟩ := longKey_inline (o := o)
+    (m := { depth := d + 1, flow := false, first := true, restoreShift := some s.indentShift }) (T.key k) rfl hb1 hals1 hpsc1
+  rw [serMapEntries_long hw _ v es _ rfl hk hfit, hmk]
+  obtain ⟨hc2, hout2, hl2, hsh2⟩ := explicitValue_ctx (o := o) ho
+    (m := { depth := d + 1, flow := false, first := true, restoreShift := some s.indentShift }) hb0 hals0 (hcol1.of_shift hsh0)
+  obtain ⟨sv, hev, houtv, hlv, hpv⟩ := hv _ (d + 1) (c + 2) hc2
+  rw [hev]
+  dsimp only
+  obtain ⟨hc3, hout3, hl3, hcmd3, hsh3⟩ := complexEntryDone_line (s := (serializeMap o len s).2) hpv hd0 hcmd0 hpim0
+  obtain ⟨m', s', he, hmf, hmr, hmfirst, hg⟩ :=
+    hes _ { depth := d + 1, flow := false, first := false, lastKeyComplex := false, restoreShift := some s.indentShift }
+      (c + 2) rfl rfl hc3 (hcol1.of_shift (by rw [hsh3, hpv.shift, hsh2, hsh0]))
+  rw [he]
+  have hfirst : m'.first = false := by simpa using hmfirst
+  obtain ⟨hp, hout, hlvb⟩ := mapEnd_nonempty (o := o) (s0 := s) hmf hfirst hg.2.2.toBase hg.2.2.als hg.2.2.psc
+    (by rw [hg.2.2.cmd, hcmd3]; exact hcmd1) (Or.inr (by simpa using hmr))
+  refine ⟨_, rfl, ?_, ?_, hp⟩
+  · rw [hout, hg.1, hout3, houtv, hout2, hout0, hout1, hl3, hlv, hl2, hl0]
+    simp [layMapItem, keyOf, hfit, renderLines_append, List.append_assoc]
+  · rw [hlvb]; simp [layMapItem, keyOf, hfit]
+
+/-- what the first entry of a mapping that starts right after `- ` / `: ` needs: its key a string of the class or a
+composite key, its value in both positions (after `key:` / after `: `), the other entries at line starts -/
+def FirstEntryOK (o : Opts) (f : ScalarFns) (P : LeafPred) (T : Toks) : List (SVal × SVal) → Prop
+  | [] => True
+  | (k, v) :: es => ((∃ kt, k = .str kt ∧ P.key kt = true) ∨ (isComplexKey k = true ∧ ItemOK o f T k)) ∧
+      ValOK o f T v ∧ ItemOK o f T v ∧ EntriesOK o f T es
+
+/-- an entry of a block mapping at a line start, whatever its key: implicit, long (explicit), composite -/
+theorem entries_cons_any {k v : SVal} {es : List (SVal × SVal)} (h : FirstEntryOK o f P T ((k, v) :: es)) :
+    EntriesOK o f T ((k, v) :: es) := by
+  obtain ⟨hkey, hvv, hvi, hes⟩ := h
+  rcases hkey with ⟨kt, rfl, hkt⟩ | ⟨hkc, hki⟩
+  · cases hfit : fitsImplicit (T.key kt)
+    · exact entries_cons_long ho hw hkt hfit hvi hes
+    · exact entries_cons ho hw hkt hfit hvv hes
+  · exact entries_cons_complex ho hw hkc hki hvi hes
+
+/-- a mapping right after `- ` / `: `, whatever its first key -/
+theorem map_item_any (known : Bool) {es : List (SVal × SVal)} (h : FirstEntryOK o f P T es) (s : St) (d c : Nat) (hc : ItemCtx o s d c) :
+    Good o s (layMapItem T o.indentStep o.compactListIndent c s.lastValueWasBlock es) (ser o f (.map known es) s) := by
+  cases es with
+  | nil => exact map_item_step ho hw known (es := []) (by simp) entries_nil s d c hc
+  | cons e es' =>
+    obtain ⟨k, v⟩ := e
+    obtain ⟨hkey, hvv, hvi, hes⟩ := h
+    rcases hkey with ⟨kt, rfl, hkt⟩ | ⟨hkc, hki⟩
+    · cases hfit : fitsImplicit (T.key kt)
+      · exact map_item_step_long ho hw known hkt hfit hvi hes s d c hc
+      · exact map_item_step ho hw known (es := (.str kt, v) :: es')
+          (by intro e he; simp at he; subst he; exact ⟨⟨kt, rfl, hkt, hfit⟩, hvv⟩) hes s d c hc
+    · exact map_item_step_complex ho hw known hkc hki hvi hes s d c hc
+
 /-! ### variants -/
 
-/-- `Variant: payload` right after `key:` -/
+omit ho hw in
+/-- `end_variant` after the payload (in whatever context `begin_variant` put it): `current_map_depth` and
+`indent_shift` are back, the result shape is kept -/
+theorem Good.afterVariant {s s3 : St} {r : List Char × List Line × Bool} {res : Except EmitErr St}
+    (pre : List Char) (h : Good o s3 r res) (hout : s3.out = s.out ++ pre) (fr : VariantFrame)
+    (hfl : fr.flow = false) (hpm : fr.prevMapDepth = some s.currentMapDepth)
+    (hr : (fr.restoreShift = none ∧ s3.indentShift = s.indentShift) ∨ fr.restoreShift = some s.indentShift) :
+    ∃ s5, res = .ok s5 ∧ (endVariant fr s5).out = s.out ++ pre ++ r.1 ++ ['\n'] ++ renderLines r.2.1 ∧
+      (endVariant fr s5).lastValueWasBlock = r.2.2 ∧ Post o s (endVariant fr s5) := by
+  obtain ⟨s5, he, ho5, hl5, hp5⟩ := h
+  have hsh := hp5.shift
+  obtain ⟨pm, rs, fl, rl⟩ := fr
+  simp only at hfl hpm hr
+  subst hfl hpm
+  refine ⟨s5, he, ?_, ?_, ?_⟩
+  · cases rl <;> (rcases hr with ⟨hr, _⟩ | hr <;> simp [endVariant, hr, restoreShift, ho5, hout, List.append_assoc])
+  · cases rl <;> (rcases hr with ⟨hr, _⟩ | hr <;> simp [endVariant, hr, restoreShift, hl5])
+  · cases rl <;> rcases hr with ⟨hr, hs⟩ | hr
+    all_goals
+      constructor
+      · constructor <;> simp [endVariant, hr, restoreShift, hp5.inFlow, hp5.pendingFlow, hp5.pss, hp5.pic, hp5.doc]
+      all_goals simp [endVariant, hr, restoreShift, hp5.als, hp5.psc, hsh, *]
+
+/-- `Variant: payload` right after `key:` (`hP`: the payload after `Variant:`; `hI`: the payload after `: ` when the
+name needs an explicit key) -/
 theorem variant_val_step {n : List Char} (hn : P.name n = true) {Q : St → Except EmitErr St}
-    {r : Nat → Bool → Bool → List Char × List Line × Bool}
+    {r : Nat → Bool → Bool → List Char × List Line × Bool} {ri : Nat → Bool → List Char × List Line × Bool}
     (hP : ∀ (s3 : St) (m c : Nat), ValCtx o s3 m c → Good o s3 (r c s3.currentMapDepth.isSome s3.lastValueWasBlock) (Q s3))
+    (hI : ∀ (s3 : St) (d c : Nat), ItemCtx o s3 d c → Good o s3 (ri c s3.lastValueWasBlock) (Q s3))
     (s : St) (m c : Nat) (h : ValCtx o s m c) :
-    Good o s (variantVal (c + o.indentStep) (T.name n) (r (c + o.indentStep) true s.lastValueWasBlock)) (variantRun o f n Q s) := by
-  obtain ⟨s3, hbv, hc3, ho3, hl3, hsh3, him3⟩ := beginVariant_val ho hw h hn
-  have ih := hP s3 (m + 1) (c + o.indentStep) hc3
-  rw [hl3, him3] at ih
-  obtain ⟨s5, he, hout, hlvb, hpost⟩ :=
-    Good.restore (s := s) (['\n'] ++ spaces (c + o.indentStep) ++ T.name n ++ [':']) ih (by rw [ho3]; simp [List.append_assoc])
-      none (Or.inl ⟨rfl, hsh3⟩)
-  rw [variantRun, hbv]
-  simp only [he]
-  refine ⟨_, rfl, ?_, ?_, ?_⟩
-  · simp only [endVariant, Bool.false_eq_true, if_false]
-    rw [hout]; simp [variantVal, List.append_assoc]
-  · simp only [endVariant, Bool.false_eq_true, if_false]
-    rw [hlvb]; simp [variantVal]
-  · simpa only [endVariant, Bool.false_eq_true, if_false] using hpost
+    Good o s (variantVal (c + o.indentStep) (T.name n) (r (c + o.indentStep) true s.lastValueWasBlock)
+      (ri (c + o.indentStep) s.lastValueWasBlock)) (variantRun o f n Q s) := by
+  cases hfit : fitsImplicit (T.name n)
+  · obtain ⟨hfl, hpm, hrs, hc3, ho3, hl3, hsh3⟩ := beginVariant_val_long ho hw h hn hfit
+    have ih := hI _ (m + 1) (c + o.indentStep) hc3
+    rw [hl3] at ih
+    obtain ⟨s5, he, hout, hlvb, hpost⟩ := Good.afterVariant (s := s) _ ih (by rw [ho3]; simp only [List.append_assoc]; rfl)
+      (beginVariant o f n s).1 hfl hpm (Or.inl ⟨hrs, hsh3⟩)
+    rw [variantRun]
+    simp only [he]
+    refine ⟨_, rfl, ?_, ?_, hpost⟩
+    · rw [hout]; simp [variantVal, hfit, List.append_assoc]
+    · rw [hlvb]; simp [variantVal, hfit]
+  · obtain ⟨s3, hbv, hc3, ho3, hl3, hsh3, him3⟩ := beginVariant_val ho hw h hn hfit
+    have ih := hP s3 (m + 1) (c + o.indentStep) hc3
+    rw [hl3, him3] at ih
+    obtain ⟨s5, he, hout, hlvb, hpost⟩ :=
+      Good.restore (s := s) (['\n'] ++ spaces (c + o.indentStep) ++ T.name n ++ [':']) ih (by rw [ho3]; simp [List.append_assoc])
+        none (Or.inl ⟨rfl, hsh3⟩)
+    rw [variantRun, hbv]
+    simp only [he]
+    refine ⟨_, rfl, ?_, ?_, ?_⟩
+    · simp only [endVariant, Bool.false_eq_true, if_false]
+      rw [hout]; simp [variantVal, hfit, List.append_assoc]
+    · simp only [endVariant, Bool.false_eq_true, if_false]
+      rw [hlvb]; simp [variantVal, hfit]
+    · simpa only [endVariant, Bool.false_eq_true, if_false] using hpost
 
 /-- `Variant: payload` right after `- ` -/
 theorem variant_item_step {n : List Char} (hn : P.name n = true) {Q : St → Except EmitErr St}
-    {r : Nat → Bool → Bool → List Char × List Line × Bool}
+    {r : Nat → Bool → Bool → List Char × List Line × Bool} {ri : Nat → Bool → List Char × List Line × Bool}
     (hP : ∀ (s3 : St) (m c : Nat), ValCtx o s3 m c → Good o s3 (r c s3.currentMapDepth.isSome s3.lastValueWasBlock) (Q s3))
+    (hI : ∀ (s3 : St) (d c : Nat), ItemCtx o s3 d c → Good o s3 (ri c s3.lastValueWasBlock) (Q s3))
     (s : St) (d c : Nat) (h : ItemCtx o s d c) :
-    Good o s (variantItem (T.name n) (r (c + 2) true s.lastValueWasBlock)) (variantRun o f n Q s) := by
-  obtain ⟨s3, hbv, hc3, ho3, hl3, him3⟩ := beginVariant_item ho hw h hn
-  have ih := hP s3 (d + 1) (c + 2) hc3
-  rw [hl3, him3] at ih
-  obtain ⟨s5, he, hout, hlvb, hpost⟩ := Good.restore (s := s) (T.name n ++ [':']) ih (by rw [ho3]; simp [List.append_assoc])
-    (some s.indentShift) (Or.inr rfl)
-  rw [variantRun, hbv]
-  simp only [he]
-  refine ⟨_, rfl, ?_, ?_, ?_⟩
-  · simp only [endVariant, Bool.false_eq_true, if_false]
-    rw [hout]; simp [variantItem, List.append_assoc]
-  · simp only [endVariant, Bool.false_eq_true, if_false]
-    rw [hlvb]; simp [variantItem]
-  · simpa only [endVariant, Bool.false_eq_true, if_false] using hpost
+    Good o s (variantItem c (T.name n) (r (c + 2) true s.lastValueWasBlock) (ri (c + 2) s.lastValueWasBlock)) (variantRun o f n Q s) := by
+  cases hfit : fitsImplicit (T.name n)
+  · obtain ⟨hfl, hpm, hrs, hc3, ho3, hl3⟩ := beginVariant_item_long ho hw h hn hfit
+    have ih := hI _ (d + 1) (c + 2) hc3
+    rw [hl3] at ih
+    obtain ⟨s5, he, hout, hlvb, hpost⟩ := Good.afterVariant (s := s) _ ih (by rw [ho3]; simp only [List.append_assoc]; rfl)
+      (beginVariant o f n s).1 hfl hpm (Or.inr hrs)
+    rw [variantRun]
+    simp only [he]
+    refine ⟨_, rfl, ?_, ?_, hpost⟩
+    · rw [hout]; simp [variantItem, hfit, List.append_assoc]
+    · rw [hlvb]; simp [variantItem, hfit]
+  · obtain ⟨s3, hbv, hc3, ho3, hl3, him3⟩ := beginVariant_item ho hw h hn hfit
+    have ih := hP s3 (d + 1) (c + 2) hc3
+    rw [hl3, him3] at ih
+    obtain ⟨s5, he, hout, hlvb, hpost⟩ := Good.restore (s := s) (T.name n ++ [':']) ih (by rw [ho3]; simp [List.append_assoc])
+      (some s.indentShift) (Or.inr rfl)
+    rw [variantRun, hbv]
+    simp only [he]
+    refine ⟨_, rfl, ?_, ?_, ?_⟩
+    · simp only [endVariant, Bool.false_eq_true, if_false]
+      rw [hout]; simp [variantItem, hfit, List.append_assoc]
+    · simp only [endVariant, Bool.false_eq_true, if_false]
+      rw [hlvb]; simp [variantItem, hfit]
+    · simpa only [endVariant, Bool.false_eq_true, if_false] using hpost
 
 end
 
@@ -1313,21 +1641,25 @@ theorem ser_val : ∀ (v : SVal), inFragP P v = true → ValOK o f T v
     intro s m c h
     rw [ser_newtypeVariant]
     simpa [layVal] using variant_val_step ho hw hv.1 (Q := ser o f v) (r := fun c im lvb => layVal T o.indentStep o.compactListIndent im c lvb v)
-      (ser_val v hv.2) s m c h
+      (ri := fun c lvb => layItem T o.indentStep o.compactListIndent c lvb v) (ser_val v hv.2) (ser_item v hv.2) s m c h
   | .tupleVariant n xs, hv => by
     simp only [inFragP, Bool.and_eq_true] at hv
     intro s m c h
     rw [ser_tupleVariant]
     simpa [layVal] using variant_val_step ho hw hv.1 (Q := ser o f (.seq xs))
       (r := fun c im _ => seqValOf xs.isEmpty (layItems T o.indentStep o.compactListIndent (seqCol o.indentStep o.compactListIndent im c) false xs).1)
-      (seq_val_step ho hw (ser_items xs hv.2)) s m c h
+      (ri := fun c lvb => laySeqItem T o.indentStep o.compactListIndent c lvb xs)
+      (seq_val_step ho hw (ser_items xs hv.2))
+      (seq_item_step ho hw (ser_items_first xs hv.2).1 (ser_items_first xs hv.2).2) s m c h
   | .structVariant n fs, hv => by
     simp only [inFragP, Bool.and_eq_true] at hv
     intro s m c h
     rw [ser_structVariant]
     simpa [layVal] using variant_val_step ho hw hv.1 (Q := ser o f (.map true fs))
       (r := fun c _ lvb => mapValOf (c + o.indentStep) lvb fs.isEmpty (layEntries T o.indentStep o.compactListIndent (c + o.indentStep) false fs).1)
-      (map_val_step ho hw true (ser_entries fs hv.2.1)) s m c h
+      (ri := fun c lvb => layMapItem T o.indentStep o.compactListIndent c lvb fs)
+      (map_val_step ho hw true (ser_entries fs hv.2.1))
+      (map_item_any ho hw true (ser_entries_first fs hv.2.1)) s m c h
   | .flowSeq _, hv => by simp [inFragP] at hv
   | .flowMap _, hv => by simp [inFragP] at hv
   | .commented _ _, hv => by simp [inFragP] at hv
@@ -1384,39 +1716,34 @@ theorem ser_item : ∀ (v : SVal), inFragP P v = true → ItemOK o f T v
     rw [ser_tupleStruct]
     simpa [layItem] using seq_item_step ho hw (xs := x :: xs)
       (by intro y hy; simp at hy; subst hy; exact ser_item x hv.1) (ser_items xs hv.2) s d c h
-  | .map known [], _ => by
+  | .map known es, hv => by
+    simp only [inFragP, Bool.and_eq_true] at hv
     intro s d c h
-    simpa [layItem] using map_item_step ho hw known (es := []) (by simp) entries_nil s d c h
-  | .map known ((k, v) :: es), hv => by
-    simp only [inFragP, inFragEntriesP, Bool.and_eq_true, Bool.or_eq_true] at hv
-    intro s d c h
-    rcases hv.1.1.1 with hsk | hck
-    · obtain ⟨kt, rfl, hkt⟩ := keyOk_iff hsk
-      simpa [layItem] using map_item_step ho hw known (es := (.str kt, v) :: es)
-        (by intro e he; simp at he; subst he; exact ⟨⟨kt, rfl, hkt⟩, ser_val v hv.1.1.2⟩)
-        (ser_entries es hv.1.2) s d c h
-    · simpa [layItem] using map_item_step_complex ho hw known hck.1 (ser_item k hck.2) (ser_item v hv.1.1.2)
-        (ser_entries es hv.1.2) s d c h
+    simpa [layItem] using map_item_any ho hw known (ser_entries_first es hv.1) s d c h
   | .newtypeVariant n v, hv => by
     simp only [inFragP, Bool.and_eq_true] at hv
     intro s d c h
     rw [ser_newtypeVariant]
     simpa [layItem] using variant_item_step ho hw hv.1 (Q := ser o f v) (r := fun c im lvb => layVal T o.indentStep o.compactListIndent im c lvb v)
-      (ser_val v hv.2) s d c h
+      (ri := fun c lvb => layItem T o.indentStep o.compactListIndent c lvb v) (ser_val v hv.2) (ser_item v hv.2) s d c h
   | .tupleVariant n xs, hv => by
     simp only [inFragP, Bool.and_eq_true] at hv
     intro s d c h
     rw [ser_tupleVariant]
     simpa [layItem] using variant_item_step ho hw hv.1 (Q := ser o f (.seq xs))
       (r := fun c im _ => seqValOf xs.isEmpty (layItems T o.indentStep o.compactListIndent (seqCol o.indentStep o.compactListIndent im c) false xs).1)
-      (seq_val_step ho hw (ser_items xs hv.2)) s d c h
+      (ri := fun c lvb => laySeqItem T o.indentStep o.compactListIndent c lvb xs)
+      (seq_val_step ho hw (ser_items xs hv.2))
+      (seq_item_step ho hw (ser_items_first xs hv.2).1 (ser_items_first xs hv.2).2) s d c h
   | .structVariant n fs, hv => by
     simp only [inFragP, Bool.and_eq_true] at hv
     intro s d c h
     rw [ser_structVariant]
     simpa [layItem] using variant_item_step ho hw hv.1 (Q := ser o f (.map true fs))
       (r := fun c _ lvb => mapValOf (c + o.indentStep) lvb fs.isEmpty (layEntries T o.indentStep o.compactListIndent (c + o.indentStep) false fs).1)
-      (map_val_step ho hw true (ser_entries fs hv.2.1)) s d c h
+      (ri := fun c lvb => layMapItem T o.indentStep o.compactListIndent c lvb fs)
+      (map_val_step ho hw true (ser_entries fs hv.2.1))
+      (map_item_any ho hw true (ser_entries_first fs hv.2.1)) s d c h
   | .flowSeq _, hv => by simp [inFragP] at hv
   | .flowMap _, hv => by simp [inFragP] at hv
   | .commented _ _, hv => by simp [inFragP] at hv
@@ -1432,12 +1759,24 @@ theorem ser_items : ∀ (xs : List SVal), inFragListP P xs = true → ItemsOK o 
 /-- the entries of a block mapping, each starting at a line start -/
 theorem ser_entries : ∀ (es : List (SVal × SVal)), inFragEntriesP P es = true → EntriesOK o f T es
   | [], _ => entries_nil
+  | (k, v) :: es, hv => entries_cons_any ho hw (ser_entries_first ((k, v) :: es) hv)
+/-- a sequence that starts right after `- ` / `: `: its first item inline, the others at line starts -/
+theorem ser_items_first : ∀ (xs : List SVal), inFragListP P xs = true →
+    (∀ x ∈ xs.head?, ItemOK o f T x) ∧ ItemsOK o f T xs.tail
+  | [], _ => ⟨by simp, items_nil⟩
+  | x :: xs, hv => by
+    simp only [inFragListP, Bool.and_eq_true] at hv
+    exact ⟨by intro y hy; simp at hy; subst hy; exact ser_item x hv.1, ser_items xs hv.2⟩
+/-- the first entry of a mapping: key and value in the positions they can stand in -/
+theorem ser_entries_first : ∀ (es : List (SVal × SVal)), inFragEntriesP P es = true → FirstEntryOK o f P T es
+  | [], _ => trivial
   | (k, v) :: es, hv => by
     simp only [inFragEntriesP, Bool.and_eq_true, Bool.or_eq_true] at hv
+    refine ⟨?_, ser_val v hv.1.2, ser_item v hv.1.2, ser_entries es hv.2⟩
     rcases hv.1.1 with hsk | hck
     · obtain ⟨kt, rfl, hkt⟩ := keyOk_iff hsk
-      exact entries_cons ho hw hkt (ser_val v hv.1.2) (ser_entries es hv.2)
-    · exact entries_cons_complex ho hw hck.1 (ser_item k hck.2) (ser_item v hv.1.2) (ser_entries es hv.2)
+      exact Or.inl ⟨kt, rfl, hkt⟩
+    · exact Or.inr ⟨hck.1, ser_item k hck.2⟩
 end
 
 end
@@ -1502,19 +1841,34 @@ theorem map_root (known : Bool) {es : List (SVal × SVal)} (hes : EntriesOK o f 
     have hr : m'.restoreShift = none := by simpa using hmr
     simp [mapEnd, hr, hmf, hfirst, hg.1, hout1, hl1]
 
+omit ho hw in
+theorem endVariant_out (fr : VariantFrame) (s : St) (h : fr.flow = false) : (endVariant fr s).out = s.out := by
+  obtain ⟨pm, rs, fl, rl⟩ := fr
+  simp only at h; subst h
+  cases pm <;> cases rs <;> cases rl <;> simp [endVariant, restoreShift]
+
 /-- `Variant: payload` at the root -/
 theorem variant_root {n : List Char} (hn : P.name n = true) {Q : St → Except EmitErr St}
-    {r : List Char × List Line × Bool}
-    (hP : ∀ (s3 : St), ValCtx o s3 0 0 → s3.lastValueWasBlock = false → s3.currentMapDepth = none → Good o s3 r (Q s3)) :
-    ∃ s', variantRun o f n Q (startSt o) = .ok s' ∧ s'.out = prologue o ++ renderLines (⟨0, T.name n ++ [':'] ++ r.1⟩ :: r.2.1) := by
-  obtain ⟨s3, hbv, hc3, ho3, hl3, hcmd3⟩ := beginVariant_root (o := o) (f := f) ho hw hn
-  obtain ⟨s5, he, hout, _, _⟩ := hP s3 hc3 hl3 hcmd3
-  rw [variantRun, hbv]
-  simp only [he]
-  refine ⟨_, rfl, ?_⟩
-  simp only [endVariant, restoreShift_none, Bool.false_eq_true, if_false]
-  rw [hout, ho3]
-  simp [spaces, List.append_assoc]
+    {r ri : List Char × List Line × Bool}
+    (hP : ∀ (s3 : St), ValCtx o s3 0 0 → s3.lastValueWasBlock = false → s3.currentMapDepth = none → Good o s3 r (Q s3))
+    (hI : ∀ (s3 : St), ItemCtx o s3 0 0 → s3.lastValueWasBlock = false → Good o s3 ri (Q s3)) :
+    ∃ s', variantRun o f n Q (startSt o) = .ok s' ∧ s'.out = prologue o ++ renderLines (variantRoot (T.name n) r ri) := by
+  cases hfit : fitsImplicit (T.name n)
+  · obtain ⟨hfl, _, hc3, ho3, hl3⟩ := beginVariant_root_long (o := o) (f := f) ho hw hn hfit
+    obtain ⟨s5, he, hout, _, _⟩ := hI _ hc3 hl3
+    rw [variantRun]
+    simp only [he]
+    refine ⟨_, rfl, ?_⟩
+    rw [endVariant_out _ _ hfl, hout, ho3]
+    simp [variantRoot, hfit, spaces, List.append_assoc]
+  · obtain ⟨s3, hbv, hc3, ho3, hl3, hcmd3⟩ := beginVariant_root (o := o) (f := f) ho hw hn hfit
+    obtain ⟨s5, he, hout, _, _⟩ := hP s3 hc3 hl3 hcmd3
+    rw [variantRun, hbv]
+    simp only [he]
+    refine ⟨_, rfl, ?_⟩
+    simp only [endVariant, restoreShift_none, Bool.false_eq_true, if_false]
+    rw [hout, ho3]
+    simp [variantRoot, hfit, spaces, List.append_assoc]
 
 /-- The emitter invariant at the root: the state machine produces exactly the layout. -/
 theorem ser_root : ∀ (v : SVal), inFragP P v = true →
@@ -1554,19 +1908,26 @@ theorem ser_root : ∀ (v : SVal), inFragP P v = true →
     simp only [inFragP, Bool.and_eq_true] at hv
     rw [ser_newtypeVariant]
     simpa [layRoot] using variant_root ho hw hv.1 (Q := ser o f v) (r := layVal T o.indentStep o.compactListIndent false 0 false v)
+      (ri := layItem T o.indentStep o.compactListIndent 0 false v)
       (fun s3 h3 hl3 hc3 => by simpa [hl3, hc3] using ser_val ho hw v hv.2 s3 0 0 h3)
+      (fun s3 h3 hl3 => by simpa [hl3] using ser_item ho hw v hv.2 s3 0 0 h3)
   | .tupleVariant n xs, hv => by
     simp only [inFragP, Bool.and_eq_true] at hv
     rw [ser_tupleVariant]
     simpa [layRoot] using variant_root ho hw hv.1 (Q := ser o f (.seq xs))
       (r := seqValOf xs.isEmpty (layItems T o.indentStep o.compactListIndent o.indentStep false xs).1)
+      (ri := laySeqItem T o.indentStep o.compactListIndent 0 false xs)
       (fun s3 h3 _ hc3 => by simpa [hc3, seqCol] using seq_val_step ho hw (ser_items ho hw xs hv.2) s3 0 0 h3)
+      (fun s3 h3 hl3 => by
+        simpa [hl3] using seq_item_step ho hw (ser_items_first ho hw xs hv.2).1 (ser_items_first ho hw xs hv.2).2 s3 0 0 h3)
   | .structVariant n fs, hv => by
     simp only [inFragP, Bool.and_eq_true] at hv
     rw [ser_structVariant]
     simpa [layRoot] using variant_root ho hw hv.1 (Q := ser o f (.map true fs))
       (r := mapValOf o.indentStep false fs.isEmpty (layEntries T o.indentStep o.compactListIndent o.indentStep false fs).1)
+      (ri := layMapItem T o.indentStep o.compactListIndent 0 false fs)
       (fun s3 h3 hl3 _ => by simpa [hl3] using map_val_step ho hw true (ser_entries ho hw fs hv.2.1) s3 0 0 h3)
+      (fun s3 h3 hl3 => by simpa [hl3] using map_item_any ho hw true (ser_entries_first ho hw fs hv.2.1) s3 0 0 h3)
   | .flowSeq _, hv => by simp [inFragP] at hv
   | .flowMap _, hv => by simp [inFragP] at hv
   | .commented _ _, hv => by simp [inFragP] at hv
@@ -1636,11 +1997,21 @@ theorem map_init (hb : o.emptyAsBraces = true) (known : Bool) (es : List (SVal 
       simp [mapIndent, startSt, writeIndent_nil, writeIndent_startSt]
     have h5 : complexKeyMark o { depth := 0, flow := false } ({} : St) = complexKeyMark o { depth := 0, flow := false } (startSt o) := by
       simp [complexKeyMark, startSt, writeIndent_nil, writeIndent_startSt]
-    simp only [Bool.false_eq_true, if_false, h3, h3', h4, h5]
+    have h6 : ∀ text, longKeyLine o { depth := 0, flow := false } text ({} : St) = longKeyLine o { depth := 0, flow := false } text (startSt o) := by
+      intro text; simp only [longKeyLine, h4]
+    simp only [Bool.false_eq_true, if_false, h3, h3', h4, h5, h6]
+
+theorem beginVariantExplicit_init (key : List Char) :
+    beginVariantExplicit o key false {} = beginVariantExplicit o key false (startSt o) := by
+  simp [beginVariantExplicit, startSt]
+  simp [writeIndent_nil, writeIndent_startSt]
 
 theorem beginVariant_init (n : List Char) : beginVariant o f n {} = beginVariant o f n (startSt o) := by
-  simp [beginVariant, indentIfLineStart, startSt]
-  simp [writeIndent_nil, writeIndent_startSt]
+  by_cases hl : (plainOrQuoted o f n).length > maxImplicitKeyChars
+  · simp only [beginVariant, hl, if_true]
+    simpa [startSt] using beginVariantExplicit_init (o := o) (plainOrQuoted o f n)
+  · simp [beginVariant, hl, indentIfLineStart, startSt]
+    simp [writeIndent_nil, writeIndent_startSt]
 
 
 /-- From the initial state a value of the fragment serializes exactly as from `startSt o`: the first
